@@ -95,6 +95,8 @@ type Devmod struct {
 func (d *Devmod) Write(ctx context.Context, deviceModules map[string]DeviceModule, mtu uint16, w *UnchunkWriter) {
 	defer func() { _ = w.Close() }()
 
+	dw := &devmodWriter{w: w, mtu: int(mtu), remaining: int(mtu)}
+
 	var modules []string
 	for key := range deviceModules {
 		module, _, _ := strings.Cut(key, ":")
@@ -122,7 +124,7 @@ func (d *Devmod) Write(ctx context.Context, deviceModules map[string]DeviceModul
 			return
 		}
 
-		if err := d.writeDescriptorMessages(w); err != nil {
+		if err := d.writeDescriptorMessages(dw); err != nil {
 			_ = w.CloseWithError(err)
 			return
 		}
@@ -130,18 +132,51 @@ func (d *Devmod) Write(ctx context.Context, deviceModules map[string]DeviceModul
 		modules = append(modules, devmodModuleName)
 	}
 
-	if err := d.writeModuleMessages(modules, mtu, w); err != nil {
+	if err := d.writeModuleMessages(modules, dw); err != nil {
 		_ = w.CloseWithError(err)
 		return
 	}
 }
 
-func (d *Devmod) writeDescriptorMessages(w *UnchunkWriter) error {
-	// Active must always be true
-	if err := w.NextServiceInfo(devmodModuleName, "active"); err != nil {
+// devmodWriter writes whole devmod values. The owner service parses each
+// devmod value as it arrives, so a value must not be split over two messages:
+// the space left in the current message is tracked the same way the sender
+// does and a new message is started when a value would not fit.
+type devmodWriter struct {
+	w         *UnchunkWriter
+	mtu       int
+	remaining int
+}
+
+func (dw *devmodWriter) write(messageName string, value any) error {
+	body, err := cbor.Marshal(value)
+	if err != nil {
 		return err
 	}
-	if err := cbor.NewEncoder(w).Encode(true); err != nil {
+	key := devmodModuleName + ":" + messageName
+	ekey, err := cbor.Marshal(key)
+	if err != nil {
+		return err
+	}
+	if dw.remaining < dw.mtu && len(body) > maxChunkValueSize(dw.remaining, len(ekey)) {
+		if err := dw.w.ForceNewMessage(); err != nil {
+			return err
+		}
+		dw.remaining = dw.mtu
+	}
+	if err := dw.w.NextServiceInfo(devmodModuleName, messageName); err != nil {
+		return err
+	}
+	if _, err := dw.w.Write(body); err != nil {
+		return err
+	}
+	dw.remaining -= int((&KV{Key: key, Val: body}).Size())
+	return nil
+}
+
+func (d *Devmod) writeDescriptorMessages(dw *devmodWriter) error {
+	// Active must always be true
+	if err := dw.write("active", true); err != nil {
 		return err
 	}
 
@@ -153,10 +188,7 @@ func (d *Devmod) writeDescriptorMessages(w *UnchunkWriter) error {
 		if dm.Field(i).Len() == 0 {
 			continue
 		}
-		if err := w.NextServiceInfo(devmodModuleName, messageName); err != nil {
-			return err
-		}
-		if err := cbor.NewEncoder(w).Encode(dm.Field(i).Interface()); err != nil {
+		if err := dw.write(messageName, dm.Field(i).Interface()); err != nil {
 			return err
 		}
 	}
@@ -179,29 +211,32 @@ func (d *Devmod) Validate() error {
 	return nil
 }
 
-func (d *Devmod) writeModuleMessages(modules []string, mtu uint16, w *UnchunkWriter) error {
+func (d *Devmod) writeModuleMessages(modules []string, dw *devmodWriter) error {
+	w, mtu := dw.w, dw.mtu
+	// Each chunk is sent in a message of its own and sized so that it is not
+	// split over two messages
 	writeChunk := func(chunk DevmodModulesChunk) error {
+		if err := w.ForceNewMessage(); err != nil {
+			return err
+		}
 		if err := w.NextServiceInfo(devmodModuleName, "modules"); err != nil {
 			return err
 		}
 		return cbor.NewEncoder(w).Encode(chunk)
 	}
 
-	if err := w.NextServiceInfo(devmodModuleName, "nummodules"); err != nil {
-		return err
-	}
-	if err := cbor.NewEncoder(w).Encode(len(modules)); err != nil {
-		return err
-	}
-
-	// Start a new message so that full MTU is available
-	if err := w.ForceNewMessage(); err != nil {
+	if err := dw.write("nummodules", len(modules)); err != nil {
 		return err
 	}
 
 	// Build chunks iteratively until MTU is exceeded, back out the last
 	// module, write chunk, and continue until the last chunk is encoded.
 	const key = devmodModuleName + ":" + "modules"
+	ekey, err := cbor.Marshal(key)
+	if err != nil {
+		return err
+	}
+	maxChunkSize := maxChunkValueSize(mtu, len(ekey))
 	var chunk DevmodModulesChunk
 	for len(modules) > 0 {
 		// Add module to chunk
@@ -210,12 +245,12 @@ func (d *Devmod) writeModuleMessages(modules []string, mtu uint16, w *UnchunkWri
 
 		// Brute force computing the encoded size by actually encoding it
 		var size sizewriter
-		if err := cbor.NewEncoder(&size).Encode([][]any{{key, chunk}}); err != nil {
+		if err := cbor.NewEncoder(&size).Encode(chunk); err != nil {
 			return fmt.Errorf("error calculating size of devmod:modules ServiceInfo: %w", err)
 		}
 
 		// Continue if MTU is not exceeded
-		if int(size) <= int(mtu) {
+		if int(size) <= maxChunkSize {
 			modules = modules[1:]
 			continue
 		}
